@@ -491,3 +491,259 @@ def call_trial(argnames, cons, pos_ws, kw_ws, numargs=None, prelude=None):
     body.refs = {}
     w.feed_call(1, body)
     return res, w
+
+
+# ------------------------------------------------------------------ generators (every choice from rng)
+LEAVES = [["py", "int"], ["int", -1], ["int", 4], ["int", None], ["int", 8], ["number", None], ["py", "float"],
+          ["number", 4], ["bytes", None, 0], ["bytes", 3, 1], ["py", "bytes"], ["text", None, 0], ["text", 3, 1],
+          ["py", "str"], ["py", "bool"], ["bool", True], ["bool", False], ["none"], ["py", "none"], ["any"]]
+HASHABLE_LEAVES = [["py", "int"], ["int", -1], ["bytes", 3, 0], ["py", "str"], ["text", 2, 0], ["py", "bool"]]
+TOKEN_LEAVES = [["py", "int"], ["int", -1], ["int", 4], ["number", None], ["bytes", 3, 1], ["py", "bytes"], ["py", "float"]]
+
+
+def gen_cs(rng, depth, choice=True, opener_choice=True, hashable=False):
+    if hashable:
+        if depth > 0 and rng.random() < 0.3:
+            return ["tuple", [gen_cs(rng, 0, hashable=True) for _ in range(rng.randint(0, 2))]]
+        return list(rng.choice(HASHABLE_LEAVES))
+    if depth <= 0 or rng.random() < 0.35:
+        return list(rng.choice(LEAVES))
+    k = rng.choice(["list", "list", "tuple", "pytuple", "dict", "set", "choice", "opt"])
+    sub = lambda: gen_cs(rng, depth - 1, choice, opener_choice)
+    if k == "list":
+        return ["list", sub(), rng.choice([None, None, 0, 1, 2, 3]), rng.choice([0, 0, 1, 2])]
+    if k in ("tuple", "pytuple"):
+        n = rng.randint(0, 3) if k == "tuple" else rng.randint(1, 3)
+        return [k, [sub() for _ in range(n)]]
+    if k == "dict":
+        return ["dict", gen_cs(rng, depth - 1, hashable=True), sub(), rng.choice([None, None, 1, 2])]
+    if k == "set":
+        return ["set", gen_cs(rng, depth - 1, hashable=True), rng.choice([None, None, 1, 2, 3]), rng.choice([None, None, True, False])]
+    if k == "choice":
+        if not choice:
+            return sub()
+        if opener_choice:
+            return ["choice", [sub() for _ in range(rng.randint(1, 3))]]
+        return ["choice", [list(rng.choice(TOKEN_LEAVES)) for _ in range(rng.randint(1, 3))]]
+    if k == "opt":
+        if not (choice and opener_choice):
+            return sub()
+        return ["list", ["opt", sub()], rng.choice([None, 2]), 0]
+    raise AssertionError(k)
+
+
+def norm_cs(cs):
+    """the explicit form of the public shorthands"""
+    k = cs[0]
+    if k == "py":
+        return {"int": ["int", 1024], "str": ["text", None, 0], "bytes": ["bytes", None, 0], "bool": ["bool", None],
+                "float": ["number", 1024], "none": ["none"]}[cs[1]]
+    if k == "pytuple":
+        return ["tuple", [norm_cs(x) for x in cs[1]]]
+    if k == "list":
+        return ["list", norm_cs(cs[1]), cs[2], cs[3]]
+    if k == "tuple":
+        return ["tuple", [norm_cs(x) for x in cs[1]]]
+    if k == "dict":
+        return ["dict", norm_cs(cs[1]), norm_cs(cs[2]), cs[3]]
+    if k == "set":
+        return ["set", norm_cs(cs[1]), cs[2], cs[3]]
+    if k == "choice":
+        return ["choice", [norm_cs(x) for x in cs[1]]]
+    if k == "opt":
+        return ["opt", norm_cs(cs[1])]
+    return cs
+
+
+FLOATS = [0.0, 1.5, -2.25, 1e300, -1e-300]
+TEXTCP = [97, 98, 122, 48, 233, 8364, 0x1F600]
+
+
+def gen_int(rng, mb):
+    if mb == -1:
+        pool = [0, 1, -1, 2 ** 31 - 1, -2 ** 31, 2 ** 31 - 2, -2 ** 31 + 1, rng.randint(-2 ** 31, 2 ** 31 - 1)]
+    elif mb is None:
+        pool = [0, -1, 2 ** 31, -2 ** 31 - 1, 2 ** 8000, -(2 ** 8200), rng.randint(-2 ** 70, 2 ** 70)]
+    else:
+        top = 2 ** (8 * mb) - 1
+        pool = [0, 1, -1, top, -top, 2 ** 31 - 1, 2 ** 31, -2 ** 31, -2 ** 31 - 1, top // 256 + 1, top // 256,
+                rng.randint(-top, top)]
+    return rng.choice(pool)
+
+
+def distinct(vals):
+    seen, out = set(), []
+    for v in vals:
+        r = repr(canon_vs(v))
+        if r not in seen:
+            seen.add(r)
+            out.append(v)
+    return out
+
+
+def gen_any(rng, depth, hashable=False):
+    ks = ["i", "i", "b", "t", "B", "N", "f"] + ([] if depth <= 0 else (["T"] if hashable else ["l", "T", "s", "d", "fs"]))
+    k = rng.choice(ks)
+    if k == "i":
+        return ["i", rng.choice([0, 5, -7, 2 ** 31, -2 ** 31 - 1, 2 ** 64, 2 ** 7999])]
+    if k == "b":
+        return ["b", [rng.randint(0, 255) for _ in range(rng.randint(0, 4))]]
+    if k == "t":
+        return ["t", [rng.choice(TEXTCP) for _ in range(rng.randint(0, 4))]]
+    if k == "B":
+        return ["B", rng.random() < 0.5]
+    if k == "N":
+        return ["N"]
+    if k == "f":
+        return ["f", bits_of_f(rng.choice(FLOATS))]
+    if k in ("l", "T"):
+        return [k, [gen_any(rng, depth - 1, hashable) for _ in range(rng.randint(0, 3))]]
+    if k in ("s", "fs"):
+        return [k, distinct([gen_any(rng, depth - 1, True) for _ in range(rng.randint(0, 3))])]
+    if k == "d":
+        keys = distinct([gen_any(rng, depth - 1, True) for _ in range(rng.randint(0, 3))])
+        return ["d", [[a, gen_any(rng, depth - 1)] for a in keys]]
+    raise AssertionError(k)
+
+
+def pick_len(rng, mx, mn):
+    lo = mn
+    hi = mx if mx is not None else mn + 3
+    if hi < lo:
+        return lo          # unsatisfiable length window: produce the nearest miss
+    return rng.choice([lo, hi, hi, rng.randint(lo, hi)])
+
+
+def gen_value(cs, rng):
+    """a value that the constraint's object-level check accepts (checkObject inverted), sitting on boundaries"""
+    cs = norm_cs(cs)
+    k = cs[0]
+    if k == "any":
+        return gen_any(rng, 2)
+    if k == "int":
+        return ["i", gen_int(rng, cs[1])]
+    if k == "number":
+        if rng.random() < 0.4:
+            return ["f", bits_of_f(rng.choice(FLOATS))]
+        return ["i", gen_int(rng, cs[1])]
+    if k == "bytes":
+        return ["b", [rng.randint(0, 255) for _ in range(pick_len(rng, cs[1], cs[2]))]]
+    if k == "text":
+        return ["t", [rng.choice(TEXTCP) for _ in range(pick_len(rng, cs[1], cs[2]))]]
+    if k == "bool":
+        return ["B", cs[1] if cs[1] is not None else rng.random() < 0.5]
+    if k == "none":
+        return ["N"]
+    if k == "list":
+        return ["l", [gen_value(cs[1], rng) for _ in range(pick_len(rng, cs[2], cs[3]))]]
+    if k == "tuple":
+        return ["T", [gen_value(x, rng) for x in cs[1]]]
+    if k == "dict":
+        n = pick_len(rng, cs[3], 0)
+        keys = distinct([gen_value(cs[1], rng) for _ in range(n)])
+        return ["d", [[a, gen_value(cs[2], rng)] for a in keys]]
+    if k == "set":
+        n = pick_len(rng, cs[2], 0)
+        kind = "s" if cs[3] is True else "fs" if cs[3] is False else rng.choice(["s", "fs"])
+        return [kind, distinct([gen_value(cs[1], rng) for _ in range(n)])]
+    if k == "choice":
+        return gen_value(rng.choice(cs[1]), rng)
+    if k == "opt":
+        return ["N"] if rng.random() < 0.3 else gen_value(cs[1], rng)
+    raise ValueError(cs)
+
+
+def perturb(cs, rng):
+    """a nearby constraint: values generated for it are near-misses of cs"""
+    cs = norm_cs(cs)
+    k = cs[0]
+    r = rng.random()
+    if k == "int":
+        return ["int", rng.choice([None, 1024, 4, 8])] if r < 0.7 else ["text", None, 0]
+    if k == "number":
+        return ["int", None] if r < 0.5 else ["bytes", None, 0]
+    if k in ("bytes", "text"):
+        if r < 0.6:
+            return [k, (cs[1] + 1) if cs[1] is not None else None, max(0, cs[2] - 1)]
+        return ["text" if k == "bytes" else "bytes", cs[1], cs[2]]
+    if k == "bool":
+        return ["bool", None] if r < 0.5 else ["int", -1]
+    if k == "none":
+        return ["bool", None]
+    if k == "any":
+        return cs
+    if k == "list":
+        if r < 0.4:
+            return ["list", cs[1], (cs[2] + 1) if cs[2] is not None else None, max(0, cs[3] - 1)]
+        if r < 0.7:
+            return ["list", perturb(cs[1], rng), cs[2], cs[3]]
+        return ["tuple", [cs[1], cs[1]]]
+    if k == "tuple":
+        if r < 0.3 or not cs[1]:
+            return ["tuple", cs[1] + [["int", -1]]]
+        if r < 0.5:
+            return ["tuple", cs[1][:-1]]
+        if r < 0.7:
+            return ["list", cs[1][0], None, 0]
+        i = rng.randrange(len(cs[1]))
+        return ["tuple", cs[1][:i] + [perturb(cs[1][i], rng)] + cs[1][i + 1:]]
+    if k == "dict":
+        if r < 0.4:
+            return ["dict", cs[1], cs[2], (cs[3] + 1) if cs[3] is not None else None]
+        if r < 0.7:
+            return ["dict", cs[1], perturb(cs[2], rng), cs[3]]
+        return ["dict", perturb(cs[1], rng) if cs[1][0] != "tuple" else cs[1], cs[2], cs[3]]
+    if k == "set":
+        if r < 0.4:
+            return ["set", cs[1], (cs[2] + 1) if cs[2] is not None else None, None]
+        if r < 0.7:
+            return ["set", cs[1], cs[2], None if cs[3] is not None else cs[3]]
+        return ["list", cs[1], cs[2], 0]
+    if k == "choice":
+        return perturb(rng.choice(cs[1]), rng) if cs[1] else ["none"]
+    if k == "opt":
+        return ["opt", perturb(cs[1], rng)]
+    return cs
+
+
+def real_accepts(cobj, pyval, inbound=False):
+    try:
+        cobj.checkObject(pyval, inbound)
+        return True
+    except Violation:
+        return False
+
+
+def regions(cs, vs):
+    """independent of the model: which KNOWN defective regions of C12 does (constraint, value) touch?"""
+    cs = norm_cs(cs)
+    k, vk = cs[0], vs[0]
+    out = set()
+    opener = vk in ("t", "B", "l", "T", "s", "fs", "d")
+    huge = vk == "i" and abs(vs[1]) >= 2 ** 8000
+    if k == "any":
+        if huge:
+            out.add("any-huge-int")
+    elif k == "choice":
+        if opener:
+            out.add("choice-opener")
+        if huge and not any(a[0] in ("int", "number") and a[1] is None for a in cs[1]):
+            out.add("any-huge-int")
+    elif k == "opt":
+        if opener:
+            out.add("opt-opener")
+        if huge:
+            out.add("any-huge-int")
+    elif k == "list" and vk == "l":
+        for x in vs[1]:
+            out |= regions(cs[1], x)
+    elif k == "tuple" and vk == "T":
+        for c, x in zip(cs[1], vs[1]):
+            out |= regions(c, x)
+    elif k == "dict" and vk == "d":
+        for a, b in vs[1]:
+            out |= regions(cs[1], a) | regions(cs[2], b)
+    elif k == "set" and vk in ("s", "fs"):
+        for x in vs[1]:
+            out |= regions(cs[1], x)
+    return out
